@@ -64,7 +64,7 @@ func verifHosts(l *roundRobinLoadBalancer) []*Host { return l.hosts.Load().([]*H
 
 // OnEvent: the published list is replaced, never edited in place: no store hits a backing array
 // that existed before the call (frame), so plans already handed out are unaffected.
-//@ func proxycore.roundRobinLoadBalancer.OnEvent [C15]
+//@ func proxycore.roundRobinLoadBalancer.OnEvent [C15, C18]
 //@   requires l != nil && inv(l)
 //@   requires typeis(event, *BootstrapEvent) ==> as(event, *BootstrapEvent) != nil
 //@   requires typeis(event, *AddEvent) ==> as(event, *AddEvent) != nil && as(event, *AddEvent).Host != nil
